@@ -951,6 +951,13 @@ func runC08(c *Ctx) {
 	// the pool's own builder alone leaves the removed rules running on the instances
 	c.ruleU3("H10-operations-reach-every-instance")
 	c.Min("H10-operations-reach-every-instance", 10)
+	// what an update installs under a name is the rule as it was compiled from the update's text: body,
+	// description and salience. Outside the compile step no field of a rule is written (the node-write
+	// part of C07-U2) -- a merge that carries the installed salience over into the replacing rule
+	// installs something the text does not say
+	c.only = func(key string) bool { return strings.Contains(key, "#ast-store") }
+	c.ruleU2("H11-installed-as-compiled")
+	c.only = nil
 	var sums []*mergeSummary
 	for _, spec := range [][3]string{{"builder", "RuleBuilder", "BuildRuleWithIncremental"}, {"engine", "", "updateIncremental"}} {
 		f := c.MustFn("H2-H5-merge", spec[0], spec[1], spec[2])
